@@ -268,20 +268,6 @@ def sampleFit : List Nat :=
   [0x0e,0x20,0x5c,0x08,0x1d,0x00,0x00,0x00,0x2e,0x46,0x49,0x54,0xf8,0xae,0x40,0x00,0x00,0x00,0x00,0x01,0x00,0x01,
    0x00,0x00,0x04,0x40,0x00,0x00,0x14,0x00,0x02,0xfd,0x04,0x86,0x03,0x01,0x02,0x00,0x00,0xca,0x9a,0x3b,0x46,0x5d,0x5c]
 
-instance (f : List Nat) : Decidable (IsEncoderOutput14 f) := by
-  unfold IsEncoderOutput14
-  have : Decidable (∃ s, FitFormat.parseStream f = some [s] ∧ s.header.size = 14 ∧
-      FitFormat.headerCrcStrict f s = true ∧ FitFormat.fileCrcOk f s = true) :=
-    match h : FitFormat.parseStream f with
-    | some [s] =>
-      if hc : s.header.size = 14 ∧ FitFormat.headerCrcStrict f s = true ∧ FitFormat.fileCrcOk f s = true
-      then isTrue ⟨s, rfl, hc⟩
-      else isFalse (by rintro ⟨s', hs', hc'⟩; cases hs'; exact hc hc')
-    | none => isFalse (by rintro ⟨s', hs', _⟩; cases hs')
-    | some [] => isFalse (by rintro ⟨s', hs', _⟩; cases hs')
-    | some (_ :: _ :: _) => isFalse (by rintro ⟨s', hs', _⟩; cases hs')
-  infer_instance
-
 /-- the sample meets the hypothesis of the theorems, is accepted intact (model of `CheckIntegrity` and of the decode
 loop), and a 16-bit burst pattern straddling three bytes of its records meets `BurstWithin16` -/
 example : IsEncoderOutput14 sampleFit ∧ checkIntegrity sampleFit = .ok 1 ∧ decodeAll true sampleFit = .ok 1 2 := by
